@@ -170,14 +170,17 @@ DEFAULT_OPTS = dict(
 def universe(draw, opts):
     """[(group, channel, type, tag)] distinct channels"""
     o = opts
-    if o['names'] == 'simple':
+    if o['names'] == 'wide':
+        gpool = ['g%d' % i for i in range(o['max_groups'])]
+        cpool = ['c%d' % i for i in range(o['max_channels'])]
+    elif o['names'] == 'simple':
         gpool = ['g%d' % i for i in range(o['max_groups'])]
         cpool = ['c%d' % i for i in range(8)]
     else:
         gpool = NAME_POOL
         cpool = NAME_POOL
     groups = draw(st.lists(st.sampled_from(gpool), min_size=1, max_size=o['max_groups'], unique=True))
-    nch = draw(st.integers(1, o['max_channels']))
+    nch = draw(st.integers(o.get('min_channels', 1), o['max_channels']))
     chans = []
     seen = set()
     for i in range(nch):
